@@ -138,6 +138,10 @@ class _CallObj:
         return self.f(index)
 
 
+def _call_base(base, index):
+    return base(index)
+
+
 class _Holder:
     def __init__(self, f):
         self.f = f
@@ -206,16 +210,38 @@ def _build(case):
             self.cur_explicit = None
             self.cur_cmd = None
             self.keep = []         # keeps callable objects alive
+            self.callables = {}    # modifier number -> the registered callable
+            self.sibling = None    # another simulation alive at the same time, stepped from this one's listeners
 
         @property
         def name(self):
             return "c10_probe"
 
+        def shared_base(self, j):
+            """ONE callable object serving several registrations: at every evaluation of the pipeline it answers for its
+            members in turn (first call = first registration, …), so a registration that is dropped, merged or served
+            twice changes the answers"""
+            members = [j] + [q for q, sp in enumerate(case["mods"]) if sp.get("share") == j]
+            state = {"it": None, "pos": 0}
+
+            def shared(idx):
+                if state["it"] != self.it:
+                    state["it"], state["pos"] = self.it, 0
+                m = members[state["pos"] % len(members)]
+                state["pos"] += 1
+                return self.mod(m, idx)
+            return shared
+
         def register(self, b, owner):
             for m, spec in enumerate(case["mods"]):
                 if spec.get("owner", 0) != owner:
                     continue
-                base = lambda idx, m=m: self.mod(m, idx)        # noqa: E731
+                if spec.get("share") is not None:            # the very same object as an earlier registration
+                    f = self.callables[spec["share"]]
+                    self._register(b, spec, f)
+                    continue
+                shared = any(sp.get("share") == m for sp in case["mods"])
+                base = self.shared_base(m) if shared else (lambda idx, m=m: self.mod(m, idx))        # noqa: E731
                 fn = spec.get("fn", "lambda")
                 if fn == "method":
                     h = _Holder(base)
@@ -224,16 +250,21 @@ def _build(case):
                 elif fn == "obj":
                     f = _CallObj(base)
                 elif fn == "partial":
-                    f = functools.partial(Probe.mod, self, m)
+                    f = functools.partial(_call_base, base) if shared else functools.partial(Probe.mod, self, m)
                 else:
                     f = base
-                via = spec.get("via", "time")
-                if via == "value":
-                    b.value.register_value_modifier("simulant_step_size", f)
-                elif via == "time_kw":
-                    b.time.register_step_size_modifier(f, requires_columns=["tracked"], requires_values=[], requires_streams=[])
-                else:
-                    b.time.register_step_size_modifier(f)
+                self.callables[m] = f
+                self._register(b, spec, f)
+
+        @staticmethod
+        def _register(b, spec, f):
+            via = spec.get("via", "time")
+            if via == "value":
+                b.value.register_value_modifier("simulant_step_size", f)
+            elif via == "time_kw":
+                b.time.register_step_size_modifier(f, requires_columns=["tracked"], requires_values=[], requires_streams=[])
+            else:
+                b.time.register_step_size_modifier(f)
 
         def setup(self, b):
             self.register(b, 0)
@@ -252,6 +283,9 @@ def _build(case):
         def mod(self, m, idx):
             spec = case["mods"][m]
             style = spec.get("style", "nan")
+            if spec.get("styles"):
+                style = spec["styles"][self.it % len(spec["styles"])]
+            unit_ = spec["units"][self.it % len(spec["units"])] if spec.get("units") else "ns"
             labels = [int(i) for i in idx]
             if style == "superset":       # answers for more simulants than it was asked about
                 labels = list(range(max(labels + [self.n - 1]) + 3))
@@ -260,8 +294,14 @@ def _build(case):
                 labels = [i for i in labels if vals[i] is not None]
             elif style == "perm":         # rows in another order than the request
                 labels = labels[::-1]
-            return pd.Series([pd.NaT if vals[i] is None else pd.Timedelta(hours=vals[i]) for i in labels],
-                             index=pd.Index(labels, dtype="int64"), dtype="timedelta64[ns]")
+            index = pd.Index(labels, dtype="int64")
+            if unit_ == "object":         # pandas scalars in an object column
+                return pd.Series([pd.NaT if vals[i] is None else pd.Timedelta(hours=vals[i]) for i in labels], index=index, dtype=object)
+            if unit_ == "py":             # datetime.timedelta / None in an object column
+                return pd.Series([None if vals[i] is None else datetime.timedelta(hours=vals[i]) for i in labels], index=index, dtype=object)
+            out = pd.Series([pd.NaT if vals[i] is None else pd.Timedelta(hours=vals[i]) for i in labels],
+                            index=index, dtype="timedelta64[ns]")
+            return out if unit_ == "ns" else out.astype(f"timedelta64[{unit_}]")
 
         def everybody(self):
             return pd.Index(range(self.n), dtype="int64")
@@ -297,6 +337,8 @@ def _build(case):
                 if self.it >= MAX_ITERS:
                     raise IterationLimit(f"{MAX_ITERS} main-loop iterations without reaching the stop time")
                 self.states.append(self.snapshot(self._clock_obj))
+                if self.sibling is not None and self.sibling.current_time < self.sibling._clock.stop_time:
+                    self.sibling.step()           # the other simulation moves on between this one's clock update and its next event
                 self.it += 1
                 self.iters.append([])
                 self.meta.append({"explicit": self.cur_explicit, "cmd": self.cur_cmd})
@@ -361,19 +403,41 @@ PRIOR = {"drive": ["run"], "min": 48, "std": 96, "days": 8, "pop": 4, "mods": [{
          "acts": {"1": [[1, "mte", [3]]], "2": [[2, "birth", 1]]}}
 
 
-def _run_prior():
-    """an earlier, different simulation in the same process that ends with a pending move-to-end request"""
+def variant_of(case):
+    """the same clock configuration, population and event times – another modifier script and other requests"""
+    v = {k: case[k] for k in ("min", "std", "days", "pop") if k in case}
+    for k in ("start_day", "float_cfg", "clock"):
+        if k in case:
+            v[k] = case[k]
+    v["drive"] = ["run"]
+    v["mods"] = [{"rows": [list(reversed(r)) for r in reversed(m["rows"])], "style": "nan"} for m in case["mods"]]
+    if case["mods"]:
+        v["mods"].append({"rows": [[case["min"]], [3 * case["min"]]], "style": "nan"})
+    v["acts"] = {"1": [[1, "mte", [0]]], "2": [[2, "birth", 1]]} if case["pop"] else {}
+    return v
+
+
+def _run_prior(case):
+    """an earlier simulation in the same process that ends with a pending move-to-end request: a fixed different one
+    (prior = True), the SAME program verbatim ("same") or the same configuration with another script ("variant")"""
     import pandas as pd
     from vivarium.framework.engine import SimulationContext
-    d, comps, _ = _build(PRIOR)
-    cfg, kw = _config(PRIOR)
+    kind = case.get("prior")
+    pc = PRIOR if kind is True else (variant_of(case) if kind == "variant" else dict(case, drive=["run"]))
+    d, comps, _ = _build(pc)
+    cfg, kw = _config(pc)
     SimulationContext._clear_context_cache()
     sim = SimulationContext(components=comps, configuration=cfg, logging_verbosity=0, **kw)
     d._clock_obj = sim._clock
     sim.setup()
     sim.initialize_simulants()
-    sim.run()
-    d.mte(pd.Index([0, 1], dtype="int64"))
+    try:
+        sim.run()
+    except KeyError:
+        if kind is True or kind == "variant":      # ("same" may legitimately name a simulant that does not exist)
+            raise
+    if d.n >= 2:
+        d.mte(pd.Index([0, 1], dtype="int64"))
 
 
 def _run(case, twin_of=None):
@@ -388,18 +452,33 @@ def _run(case, twin_of=None):
 
     if case.get("prior") and twin_of is None:
         try:
-            _run_prior()
+            _run_prior(case)
         except Exception as e:  # noqa: BLE001 - the earlier simulation is a legal program too
             if type(e).__name__ == "CaseTimeout":
                 raise
             return {"outcome": "err:" + type(e).__name__, "err_msg": "in the earlier simulation of the same process: " + str(e)[:150],
                     "init": None, "states": [], "iters": [], "final": None, "cmds": [], "meta": []}
+    sib = None
+    if case.get("sibling") and twin_of is None:
+        # a second simulation ALIVE AT THE SAME TIME (same configuration, other script); the probe steps it from its listeners
+        vc = variant_of(case)
+        sd, scomps, _ = _build(vc)
+        scfg, skw = _config(vc)
+        SimulationContext._clear_context_cache()
+        sib = InteractiveContext(components=scomps, configuration=scfg, logging_verbosity=0, setup=False, **skw)
+        sd._clock_obj = sib._clock
+        sib.setup()
     d, comps, dur = _build(case)
+    d.sibling = sib
     cfg, kw = _config(case)
     simple = is_simple(case)
 
     def at(t):
         return t if simple else pd.Timestamp(*T0) + pd.Timedelta(hours=t)
+
+    def dur_k(v, kind):
+        """a duration in the representation the command asks for (pandas Timedelta / datetime.timedelta)"""
+        return datetime.timedelta(hours=v) if (kind == "py" and not simple) else dur(v)
 
     SimulationContext._clear_context_cache()
     out = {"outcome": "ok", "init": None, "states": None, "iters": None, "final": None, "cmds": []}
@@ -444,17 +523,18 @@ def _run(case, twin_of=None):
                         elif len(cmd) > 2 and cmd[2] == "kw":
                             sim.step(step_size=dur(cmd[1]))
                         else:
-                            sim.step(dur(cmd[1]))
+                            sim.step(dur_k(cmd[1], cmd[2] if len(cmd) > 2 else None))
                     elif cmd[0] == "take":
                         d.cur_explicit = cmd[2]
                         if cmd[2] is None:
                             sim.take_steps(cmd[1])
                         else:
-                            sim.take_steps(number_of_steps=cmd[1], step_size=dur(cmd[2]), with_logging=False)
+                            sim.take_steps(number_of_steps=cmd[1], step_size=dur_k(cmd[2], cmd[3] if len(cmd) > 3 else None), with_logging=False)
                     elif cmd[0] == "until":
-                        log["ret"] = sim.run_until(at(cmd[1]))
+                        t = at(cmd[1])
+                        log["ret"] = sim.run_until(t.to_pydatetime() if (len(cmd) > 2 and cmd[2] == "dt" and not simple) else t)
                     elif cmd[0] == "for":
-                        log["ret"] = sim.run_for(dur(cmd[1]), with_logging=False)
+                        log["ret"] = sim.run_for(dur_k(cmd[1], cmd[2] if len(cmd) > 2 else None), with_logging=False)
                     else:
                         log["ret"] = sim.run()
                 finally:
@@ -484,7 +564,7 @@ def _run(case, twin_of=None):
         out["final"] = d.snapshot(sim._clock)
     except Exception as e:  # noqa: BLE001
         out["final"] = {"error": type(e).__name__}
-    if out["init"] is None and drive[0] == "run_simulation" and out["outcome"] == "ok":
+    if out["init"] is None and drive[0] == "run_simulation" and (out["outcome"] == "ok" or d.states):
         out["init"] = d.states[0] if d.states else out["final"]      # nothing changes between initialize_simulants and the first event
     if case.get("twin") and twin_of is None:
         try:
@@ -600,6 +680,40 @@ class C10(Prop):
                               {"rows": [[100, 100, 100, 25]], "style": "omit", "fn": "method", "owner": 1}],
                  acts={"1": [[1, "mte", [3, 1], {"kind": "rev", "by": 1}]], "2": [[2, "mte", [0, 1], {"kind": "range"}], [2, "birth", 1, {"by": 1}]],
                        "3": [[0, "mte", [2], {"kind": "object"}], [3, "mte", [4], {"kind": "float", "by": 1}]]}),
+            # ---- lessons 12-13: histories ----------------------------------------------------------------------
+            # the same simulants due at consecutive updates while the answers grow / shrink / alternate; one callable
+            # object registered twice (it answers for its registrations in turn)
+            case(pop=2, mods=[{"rows": [[24], [48], [72], [96]], "style": "nan"}]),
+            case(pop=1, mods=[{"rows": [[72], [24], [24], [96], [25]], "style": "omit"}], drive=["step", 0], twin=True),
+            case(pop=3, mods=[{"rows": [[24], [72]], "style": "perm", "fn": "obj"},
+                              {"rows": [[200], [30], [200], [200]], "style": "nan", "share": 0, "via": "value"}]),
+            case(pop=2, mods=[{"rows": [[48, 24], [96, 96], [24, 120]], "style": "nan", "fn": "method", "owner": 1},
+                              {"rows": [[30, 300], [300, 30]], "style": "omit", "share": 0, "owner": 1},
+                              {"rows": [[500, 26], [27, 500]], "style": "nan", "share": 0, "owner": 1, "via": "time_kw"}]),
+            # the same column in different resolutions / shapes at different updates of one history
+            case(pop=3, mods=[{"rows": [[48, 72, None], [30, None, 100]], "style": "nan", "units": ["ns", "s", "us", "ms"],
+                               "styles": ["nan", "omit", "perm", "superset"]}, {"rows": [[None, 50, 75]], "style": "omit", "units": ["ms", "ns"]}]),
+            # the same move-to-end request: twice before the update (two components, two index kinds), again after the
+            # simulants were parked, around an untrack / retrack of the same simulants
+            case(pop=4, acts={"1": [[1, "mte", [1, 2]], [2, "mte", [1, 2], {"kind": "rev", "by": 1}]], "2": [[0, "untrack", [1, 2]]],
+                              "3": [[1, "mte", [1, 2], {"kind": "float"}]], "4": [[3, "retrack", [1, 2]], [3, "mte", [1, 2]]],
+                              "5": [[0, "mte", [1, 2, 3], {"kind": "object"}]]}),
+            case(pop=2, mods=m23, acts={"1": [[0, "mte", [0]], [0, "mte", [0]], [3, "mte", [0]]], "3": [[2, "mte", [0]]]}, drive=["take", 2]),
+            # births inside every event channel of consecutive steps
+            case(pop=1, mods=[{"rows": [[48, 24, 72]], "style": "nan"}],
+                 acts={"1": [[0, "birth", 1], [1, "birth", 1], [2, "birth", 2], [3, "birth", 1]],
+                       "2": [[0, "birth", 1, {"by": 1}], [1, "birth", 1], [2, "birth", 1, {"by": 1}], [3, "birth", 1]]}),
+            # F33 family: explicit steps repeated verbatim, as pandas and python objects, around default steps; empty
+            # population, explicit step, births, explicit step again, default step
+            case(pop=3, drive=["prog", [["step", 36], ["step", 36], ["step", None], ["step", 36, "py"], ["step", None], ["take", 2, 36, "py"], ["take", 2, 36]], True]),
+            case(pop=0, days=8, drive=["prog", [["step", 7], ["step", None], ["step", None], ["step", 30], ["step", None], ["step", 30, "py"], ["step", None]], True],
+                 acts={"2": [[1, "birth", 2]]}),
+            case(pop=2, mods=m23, drive=["prog", [["until", 100, "dt"], ["until", 100], ["until", 100, "dt"], ["for", 30, "py"], ["for", 30], ["run"], ["run"]], False]),
+            # another simulation in the same process: the same program verbatim before, the same configuration with another
+            # script before, and one alive at the same time
+            case(pop=3, prior="same"), case(pop=3, prior="variant", acts={"2": [[1, "mte", [1]]]}),
+            case(pop=3, sibling=True, acts={"2": [[1, "mte", [1]], [2, "birth", 1]]}),
+            case(pop=2, mods=m23, sibling=True, drive=["step", 0], twin=True),
             # an earlier, different simulation in the same process that ended with a pending request
             case(pop=3, prior=True), case(pop=2, mods=m23, prior=True, drive=["step", 0]),
         ]
@@ -682,8 +796,9 @@ class C10(Prop):
 
     def generate(self, rng: random.Random, i: int, tier: str):
         big = tier == "thorough"
-        mode = rng.choices(["classic", "explicit", "explicit-small", "until", "global", "untracked", "prior"],
-                           weights=[46, 12, 6, 12, 9, 10, 5])[0]
+        mode = rng.choices(["classic", "explicit", "explicit-small", "until", "global", "untracked", "prior",
+                            "lockstep", "repeat-mte", "births-everywhere", "empty-then-explicit"],
+                           weights=[30, 11, 5, 10, 8, 8, 6, 9, 6, 4, 3])[0]
         pop = 1 if rng.random() < 0.15 else rng.randint(2, 12 if not big else 24)
         if rng.random() < 0.02:
             pop = 0
@@ -713,7 +828,77 @@ class C10(Prop):
         elif mode == "prior":
             case["acts"] = self._gen_acts(rng, pop, horizon)
             case["drive"] = default_drive
-            case["prior"] = True
+            case["prior"] = rng.choice([True, "same", "same", "variant", "variant"])
+        elif mode == "lockstep":
+            # lessons 12: the SAME simulants are due at consecutive updates while the modifiers' answers grow / shrink /
+            # alternate / stay – a remembered answer, list or result from an earlier update shows at once
+            case["pop"] = pop = rng.choice([1, 2, 3, 5]) if pop else 1
+            shape = rng.choice(["grow", "shrink", "alternate", "plateau-then-grow", "sawtooth"])
+            seq = {"grow": [1, 2, 3, 4, 6], "shrink": [6, 4, 3, 2, 1], "alternate": [1, 3, 1, 3], "plateau-then-grow": [1, 1, 1, 3, 3, 5],
+                   "sawtooth": [1, 2, 3, 1, 2, 3]}[shape]
+            case["mods"] = [{"rows": [[q * mn + rng.choice([0, 0, 1, mn // 2])] for q in seq], "style": rng.choice(["nan", "omit", "perm"])}]
+            if rng.random() < 0.6:          # a second registration of the very same callable, asking for more
+                case["mods"].append({"rows": [[(q + 2) * mn] for q in reversed(seq)], "style": "nan", "share": 0,
+                                     "via": rng.choice(["time", "value", "time_kw"])})
+            if rng.random() < 0.5:
+                case["mods"][0]["units"] = [rng.choice(["ns", "s", "us", "ms"]) for _ in range(rng.randint(2, 4))]
+            case["days"] = days = max(days, 3)
+            case["acts"] = self._gen_acts(rng, pop, horizon, mte_counts=(0, 0, 1)) if rng.random() < 0.3 else {}
+            case["drive"] = default_drive
+            if default_drive[0] in ("step", "take"):
+                case["twin"] = True
+        elif mode == "repeat-mte":
+            # the same request verbatim: twice before the update, again after the simulants were parked, by the other
+            # component, as another kind of index, with untrack / retrack of the same simulants in between
+            case["pop"] = pop = max(pop, 2)
+            ids = sorted(rng.sample(range(pop), rng.randint(1, min(pop, 3))))
+            k0 = rng.randint(1, 3)
+            kinds = ["sorted", "rev", "range", "object", "float"]
+            acts = {}
+
+            def add(k, a):
+                acts.setdefault(str(k), []).append(a)
+            p0 = rng.randint(0, 2)
+            add(k0, [p0, "mte", ids] + ([{"kind": rng.choice(kinds)}] if rng.random() < 0.5 else []))
+            if rng.random() < 0.7:
+                add(k0, [rng.randint(p0, 3), "mte", ids, {"kind": rng.choice(kinds), "by": rng.choice([0, 1])}])
+            for k in sorted(rng.sample(range(k0 + 1, k0 + 7), rng.randint(1, 3))):
+                r = rng.random()
+                if r < 0.35:
+                    add(k, [rng.randint(0, 3), "untrack", ids])
+                    add(k + 1, [rng.randint(0, 3), "mte", ids, {"kind": rng.choice(kinds)}])
+                    add(k + 2, [rng.randint(0, 3), "retrack", ids])
+                elif r < 0.7:
+                    add(k, [rng.randint(0, 3), "mte", ids] + ([{"by": 1}] if rng.random() < 0.4 else []))
+                else:
+                    add(k, [rng.randint(0, 3), "mte", sorted(set(ids) | {rng.randrange(pop)})])
+            for k in acts:
+                acts[k].sort(key=lambda a: a[0])
+            case["acts"] = acts
+            case["drive"] = default_drive
+        elif mode == "births-everywhere":
+            # births inside every event channel of consecutive steps: each later event of the same step must include them
+            acts = {}
+            for k in range(1, rng.randint(2, 5)):
+                acts[str(k)] = [[ph, "birth", rng.choice([1, 1, 2])] + ([{"by": 1}] if rng.random() < 0.3 else [])
+                                for ph in range(4) if rng.random() < 0.8]
+                if not acts[str(k)]:
+                    del acts[str(k)]
+            case["acts"] = acts
+            case["drive"] = default_drive
+            if default_drive[0] in ("step", "take"):
+                case["twin"] = True
+        elif mode == "empty-then-explicit":
+            # F33 family: whether the clock recomputes its step is a fact about NOW (empty population / first births), not
+            # something to remember from the first explicit step
+            case["pop"] = pop = 0
+            kb = rng.randint(2, 4)
+            case["acts"] = {str(kb): [[rng.randint(0, 3), "birth", rng.randint(1, 3)]]}
+            cmds = [["step", rng.choice(xpool[:7])]] + [["step", None]] * (kb - 1)
+            for _ in range(rng.randint(2, 5)):
+                cmds.append(rng.choice([["step", rng.choice(xpool[:7])], ["step", None], ["take", 2, rng.choice(xpool[:7])]]))
+            cmds.append(["step", None])
+            case["drive"] = ["prog", cmds, True]
         elif mode == "untracked":
             case["acts"] = self._gen_acts(rng, pop, horizon, heavy_untrack=True)
             case["drive"] = rng.choice([["step", 0], ["take", 2], ["prog", [["run"]], False], ["prog", [["for", 3 * mn]], True], ["run"]])
@@ -731,6 +916,15 @@ class C10(Prop):
                     cmds.append(["take", rng.randint(1, 3), rng.choice(xpool)])
                 else:
                     cmds.append(["take", rng.randint(1, 3), None])
+                if rng.random() < 0.3 and cmds:          # the previous command again, verbatim
+                    cmds.append(list(cmds[-1]))
+                if rng.random() < 0.15 and len(cmds) >= 2:  # … or an earlier one after others
+                    cmds.append(list(rng.choice(cmds[:-1])))
+            for c in cmds:                                # the same quantity as pandas / python objects along ONE history
+                if c[0] == "step" and c[1] is not None and len(c) == 2 and rng.random() < 0.3:
+                    c.append("py")
+                elif c[0] == "take" and c[2] is not None and rng.random() < 0.3:
+                    c.append("py")
             case["drive"] = ["prog", cmds, rng.random() < 0.8]
         elif mode == "explicit-small":
             # conjunction: every simulant far ahead, explicit steps shorter than every gap, a pending request meanwhile
@@ -755,6 +949,14 @@ class C10(Prop):
                     cmds.append(["step", None])
                 else:
                     cmds.append(["run"])
+            for c in list(cmds):
+                if rng.random() < 0.25:
+                    cmds.insert(cmds.index(c) + 1, list(c))          # the same command again, verbatim
+            for c in cmds:
+                if c[0] == "until" and rng.random() < 0.3:
+                    c.append("dt")
+                elif c[0] == "for" and rng.random() < 0.3:
+                    c.append("py")
             if rng.random() < 0.6:
                 cmds.append(["run"])
             case["drive"] = ["prog", cmds, rng.random() < 0.5]
@@ -780,6 +982,25 @@ class C10(Prop):
                                 ["take", rng.randint(1, 3), rng.choice(xpool + [None])] if q < 0.7 else
                                 ["for", rng.choice([1, mn, 2 * mn + 1, 5 * mn])] if q < 0.9 else ["run"])
                 case["drive"] = ["prog", cmds, True]
+        if case["mods"] and mode not in ("lockstep",):
+            for m in case["mods"]:
+                if rng.random() < 0.25:
+                    # (object-dtype Series of Timedelta / datetime.timedelta are NOT generated: the real post-processor fails on them as soon
+                    #  as another Series leaves a gap – TypeError / UFuncTypeError; see the report)
+                    m["units"] = [rng.choice(["ns", "ns", "s", "us", "ms"]) for _ in range(rng.randint(2, 4))]
+                if rng.random() < 0.2:
+                    m["styles"] = [rng.choice(["nan", "omit", "perm", "superset"]) for _ in range(rng.randint(2, 3))]
+            if len(case["mods"]) >= 2 and rng.random() < 0.25:
+                j = rng.randrange(len(case["mods"]) - 1)
+                q = rng.randrange(j + 1, len(case["mods"]))
+                if case["mods"][j].get("share") is None:
+                    case["mods"][q]["share"] = j
+                    case["mods"][q]["owner"] = case["mods"][j].get("owner", 0)
+                    case["mods"][q].pop("fn", None)
+        if "prior" not in case and rng.random() < 0.08:
+            case["prior"] = rng.choice(["same", "variant"])
+        if rng.random() < 0.1:
+            case["sibling"] = True
         if zero_days and case["drive"][0] != "run_simulation":     # a zero-length simulation cannot be finalized (C06's business)
             case["days"] = 0
         return case
@@ -795,7 +1016,7 @@ class C10(Prop):
                 else:
                     del new[k]
                 yield dict(case, acts=new)
-        for key in ("twin", "prior", "float_cfg", "start_day"):
+        for key in ("twin", "prior", "sibling", "float_cfg", "start_day"):
             if case.get(key):
                 yield {k: v for k, v in case.items() if k != key}
         if case["drive"][0] == "prog":
@@ -805,13 +1026,15 @@ class C10(Prop):
                     yield dict(case, drive=["prog", cmds[:j] + cmds[j + 1:], case["drive"][2]])
         for mi in range(len(case["mods"]) - 1, -1, -1):
             if len(case["mods"]) > 1:
-                yield dict(case, mods=case["mods"][:mi] + case["mods"][mi + 1:])
+                yield dict(case, mods=_drop_mod(case["mods"], mi))
             m = case["mods"][mi]
             rows = m["rows"]
             for ri in range(len(rows) - 1, -1, -1):
                 if len(rows) > 1:
                     yield dict(case, mods=case["mods"][:mi] + [dict(m, rows=rows[:ri] + rows[ri + 1:])] + case["mods"][mi + 1:])
-            if set(m) - {"rows", "style"} or m.get("style") not in ("nan", "omit"):
+            if m.get("share") is None and any(sp.get("share") == mi for sp in case["mods"]):
+                pass            # (simplifying a shared callable's first registration would change what "shared" means)
+            elif set(m) - {"rows", "style"} or m.get("style") not in ("nan", "omit"):
                 yield dict(case, mods=case["mods"][:mi] + [{"rows": rows, "style": "omit" if m.get("style") == "omit" else "nan"}] + case["mods"][mi + 1:])
         if case["pop"] > 1:
             mx = max([max(a[2]) for l in case["acts"].values() for a in l if a[1] != "birth" and a[2]] + [0])
@@ -1175,9 +1398,20 @@ class C10(Prop):
                 t.append("std:fractional-days")
             if case["std"] and case["std"] % 24 != case["min"] % 24:
                 t.append("std-fraction-differs-from-min-fraction")
-        for key in ("twin", "prior", "float_cfg"):
+        for key in ("twin", "float_cfg", "sibling"):
             if case.get(key):
                 t.append(key)
+        if case.get("prior"):
+            t.append("prior:" + ("fixed" if case["prior"] is True else str(case["prior"])))
+        cl_ = [c["cmd"] for c in (obs.get("cmds") or [])]
+        if any(a == b and a[0] in ("until", "for", "run") or (a == b and a[0] in ("step", "take") and a[2 if a[0] == "take" else 1] is not None)
+               for a, b in zip(cl_, cl_[1:])):
+            t.append("cmd-repeated-verbatim")
+        reqs = [(k, tuple(a[2])) for k in sorted(map(int, case["acts"])) for a in case["acts"][str(k)] if a[1] == "mte" and a[2]]
+        if any(r1[1] == r2[1] and r1[0] == r2[0] for n1, r1 in enumerate(reqs) for r2 in reqs[n1 + 1:]):
+            t.append("mte-repeated-before-update")
+        if any(r1[1] == r2[1] and r1[0] < r2[0] for n1, r1 in enumerate(reqs) for r2 in reqs[n1 + 1:]):
+            t.append("mte-repeated-after-parked")
         if case.get("start_day"):
             t.append("start-shifted")
         if not case["mods"]:
@@ -1186,6 +1420,18 @@ class C10(Prop):
             t.append("end==start")
         for m in case["mods"]:
             t += ["style:" + m.get("style", "nan"), "fn:" + m.get("fn", "lambda"), "via:" + m.get("via", "time"), f"owner:{m.get('owner', 0)}"]
+            if m.get("share") is not None:
+                t.append("shared-callable")
+            if m.get("units"):
+                t += ["unit:" + u for u in m["units"]] + (["units-change-along-history"] if len(set(m["units"])) > 1 else [])
+            if m.get("styles") and len(set(m["styles"])) > 1:
+                t.append("styles-change-along-history")
+            col = [r[0] for r in m["rows"] if r and r[0] is not None]
+            if len(col) >= 2 and len(m["rows"][0]) == 1:
+                if any(b > a for a, b in zip(col, col[1:])):
+                    t.append("lockstep-answer-grows")
+                if any(b < a for a, b in zip(col, col[1:])):
+                    t.append("lockstep-answer-shrinks")
             flat = [v for r in m["rows"] for v in r]
             if any(v is None for v in flat):
                 t.append("partial-coverage")
@@ -1200,7 +1446,9 @@ class C10(Prop):
         meta = obs.get("meta") or []
         for c in obs.get("cmds") or []:
             cmd = c["cmd"]
-            t.append("cmd:" + cmd[0] + ("+step_size" if cmd[0] in ("step", "take") and cmd[-1 if cmd[0] == "take" else 1] is not None else ""))
+            t.append("cmd:" + cmd[0] + ("+step_size" if cmd[0] in ("step", "take") and cmd[2 if cmd[0] == "take" else 1] is not None else ""))
+            if cmd[-1] in ("py", "dt"):
+                t.append("cmd-arg:python-object")
             if cmd[0] in ("until", "for", "run") and c.get("n") == 0:
                 t.append("cmd:" + cmd[0] + "-zero-iterations")
         untracked_seen = False
@@ -1275,6 +1523,22 @@ class C10(Prop):
         return {"case": case, "outcome": obs["outcome"], "init": obs.get("init"),
                 "first_events": [{k: e[k] for k in ("now", "step", "time", "index")} for evs in its[:3] for e in evs[:1]],
                 "iterations": len(its), "commands": obs.get("cmds"), "final": obs.get("final")}
+
+
+def _drop_mod(mods, mi):
+    """the modifier list without number mi; `share` references are renumbered (sharers of mi become independent)"""
+    out = []
+    for q, m in enumerate(mods):
+        if q == mi:
+            continue
+        m = dict(m)
+        if m.get("share") is not None:
+            if m["share"] == mi:
+                del m["share"]
+            elif m["share"] > mi:
+                m["share"] -= 1
+        out.append(m)
+    return out
 
 
 def _add(a, b):
